@@ -204,3 +204,46 @@ def decided_outcome(summary):
         if g is True:
             return (ex.kind, ex.value if ex.kind == "return" else ex.exc)
     return ("falloff", None)
+
+
+def free_bvs(v, memo=None):
+    """Depths of bound-variable leaves occurring free in v (not bound by an enclosing map / fold / loopout)."""
+    memo = {} if memo is None else memo
+    if isinstance(v, T):
+        if id(v) in memo:
+            return memo[id(v)]
+        if v.op in ("bv", "bvi"):
+            r = frozenset([v.args[0]])
+        elif v.op == "map":
+            body = free_bvs(v.args[0], memo) | (free_bvs(v.args[2], memo) if v.args[2] is not None else frozenset())
+            bound = min(body) if body else None
+            r = (body - {bound}) | free_bvs(v.args[1], memo)
+        elif v.op == "fold":
+            r = (free_bvs(v.args[1], memo) - {v.args[4]}) | free_bvs(v.args[2], memo) | free_bvs(v.args[3], memo)
+        elif v.op == "loopout":
+            d = v.args[5]
+            inner = frozenset()
+            for k, x in v.args[3]:
+                inner |= free_bvs(x, memo)
+            r = inner - {d}
+            for k, x in v.args[4]:
+                r |= free_bvs(x, memo)
+            if isinstance(v.args[2], (T, tuple)):
+                r |= free_bvs(v.args[2], memo) - {d}
+        else:
+            r = frozenset()
+            for a in v.args:
+                r |= free_bvs(a, memo)
+        memo[id(v)] = r
+        return r
+    if isinstance(v, (list, tuple)):
+        r = frozenset()
+        for a in v:
+            r |= free_bvs(a, memo)
+        return r
+    if isinstance(v, dict):
+        r = frozenset()
+        for a in v.values():
+            r |= free_bvs(a, memo)
+        return r
+    return frozenset()
